@@ -536,12 +536,16 @@ prep_task(echsx_task_t t)
  *
  * where 0 is /dev/null and Fi denotes a file name. */
 	static const char nulfn[] = "/dev/null";
-	static char tmpl[] = "/tmp/echsXXXXXXXX";
+	static const char tmpl_proto[] = "/tmp/echsXXXXXXXX";
+	static char tmpl[sizeof(tmpl_proto)];
 	int nulfd = open(nulfn, O_WRONLY, 0600);
 	int nulfd_used = 0;
 	int rc = 0;
 
 #define NULFD	(nulfd_used++, nulfd)
+	/* mkstemp() works on the template, the task before us might
+	 * have used it */
+	memcpy(tmpl, tmpl_proto, sizeof(tmpl));
 	/* put some sane defaults into t */
 	t->ifd = t->ofd = t->efd = t->mfd = -1;
 	t->opip = t->epip = t->teeo = t->teee = -1;
@@ -1073,6 +1077,8 @@ cannot obtain lock: %s", STRERR);
 	with (echs_instant_t te = epoch_to_echs_instant(t->t_end.tv_sec)) {
 		size_t n;
 
+		/* the task before us has left COMPLETED: there */
+		memcpy(stmp, "CODTSTAMP:", strlenof("CODTSTAMP:"));
 		n = strlenof("XXDTSTAMP:");
 		n += dt_strf_ical(stmp + n, sizeof(stmp) - n, te);
 		stmp[n++] = '\n';
